@@ -6,10 +6,13 @@ sys.path.insert(0, HERE)
 import props
 
 ALL = ["C%02d" % i for i in range(1, 21)]
+# Only properties listed in lib/ready.txt are claimed: a check is listed once
+# it ran green on the unchanged tree at several seeds and its mutants were run.
+READY = set(open(os.path.join(HERE, "ready.txt")).read().split())
 checks = []
 for pid in ALL:
     cfg = props.PROPS.get(pid)
-    if not cfg or not cfg.get("claimed", True):
+    if not cfg or not cfg.get("claimed", True) or pid not in READY:
         continue
     checks.append(dict(
         property_id=pid,
@@ -26,7 +29,7 @@ for pid in ALL:
 na = []
 for pid in ALL:
     cfg = props.PROPS.get(pid)
-    if not cfg or not cfg.get("claimed", True):
+    if not cfg or not cfg.get("claimed", True) or pid not in READY:
         na.append(dict(property_id=pid, reason=props.NOT_CLAIMED.get(pid, "check not built yet (work in progress); the technique applies, see DESIGN.md")))
 m = dict(
     version=1,
